@@ -6,6 +6,29 @@ FROM_FEN = "board::BoardState::from_fen"
 UNSIGNED_BITS = {"u8": 8, "u16": 16, "u32": 32, "u64": 64, "u128": 128, "usize": 64}
 
 
+def _fen_field_of(e):
+    """k if `e` denotes the k-th space-separated field of the FEN string: `fields[k]` (an index call
+    with a constant k) or the k-th binding of a slice pattern over the whole vector
+    (`let [placement, side, ..] = fields[..] else {..}`; `fields.as_slice()` likewise)."""
+    e = strip_refs(e)
+    if e[0] == "call" and e[1].endswith("::index") and len(e[2]) == 2 and e[2][1][0] == "const" and isinstance(e[2][1][1], int):
+        return e[2][1][1]
+    if e[0] == "cidx" and isinstance(e[2], int) and e[2] >= 0:
+        base = strip_refs(e[1])
+        if base[0] == "call" and base[1].endswith("::index") and len(base[2]) == 2:
+            r = strip_refs(base[2][1])
+            if r[0] == "agg" and str(r[1]).endswith("RangeFull"):
+                return e[2]
+        if base[0] == "call" and (base[1].endswith("::as_slice") or base[1].endswith("Deref>::deref")) and len(base[2]) == 1:
+            return e[2]
+    return None
+
+
+def _fen_fields(e):
+    """FEN field numbers mentioned anywhere in expression e."""
+    return [k for x in subexprs(e) for k in [_fen_field_of(x)] if k is not None]
+
+
 def r15_2(ctx):
     """Width of the FEN counters: full-move counter >= 16 bits unsigned, half-move clock >= 8 bits."""
     f = ctx.facts
@@ -19,10 +42,7 @@ def r15_2(ctx):
         if not c.endswith("<impl str>::parse"):
             continue
         arg = ex.call_args(bb)[0]
-        idx = None
-        for s in subexprs(arg):
-            if s[0] == "call" and s[1].endswith("::index") and len(s[2]) == 2 and s[2][1][0] == "const":
-                idx = s[2][1][1]
+        idx = (_fen_fields(arg) or [None])[-1]
         ty = (t.get("generic_args") or ["?"])[0]
         if idx in need:
             seen[idx] = (ty, b.where(b.term_loc(bb)))
@@ -286,6 +306,8 @@ def _i1_vec_index(b, ex, bb, t):
     `v.len() == n` (k < n), `v.len() > n` (k <= n), `v.len() >= n` (k < n), or the false edge of
     `v.len() < n` / `v.len() <= n` / `v.len() != n`."""
     args = ex.call_args(bb)
+    if len(args) == 2 and strip_refs(args[1])[0] == "agg" and str(strip_refs(args[1])[1]).endswith("RangeFull"):
+        return "I1: `v[..]` is the whole vector as a slice (no bound to violate)"
     if len(args) != 2 or args[1][0] != "const":
         return None
     k = args[1][1]
@@ -411,9 +433,9 @@ def r15_6(ctx):
         c = callee_of(t) or ""
         if c.endswith("<impl str>::parse"):
             arg = ex.call_args(bb)[0]
-            for s in subexprs(arg):
-                if s[0] == "call" and s[1].endswith("::index") and len(s[2]) == 2 and s[2][1][0] == "const" and s[2][1][1] in (4, 5):
-                    parses[ex.call_expr(t, b.term_loc(bb))] = s[2][1][1]
+            for k in _fen_fields(arg):
+                if k in (4, 5):
+                    parses[ex.call_expr(t, b.term_loc(bb))] = k
     n = 0
     from wa.expr import data_slice
     for s in b.normal:
@@ -436,6 +458,46 @@ def r15_6(ctx):
 from . import chess
 from wa.linear import linear
 from wa.expr import data_slice, root_local
+
+
+def _through_try(f, ex, e):
+    """Resolve `(x?).field` a step further than value numbering does.  `x?` is
+    `match Try::branch(x) { Continue(v) => v, Break(r) => return from_residual(r) }`: on the path that
+    goes on, v is the payload of x's `Ok`/`Some`.  When x is the result slot of an inlined helper it has
+    several definitions (`Ok(S {..})` at the end, `Err(..)` at every early return) of which exactly
+    one is a success value; fields are then selected from that aggregate."""
+    if not isinstance(e, tuple) or not e:
+        return e
+    if e[0] == "field":
+        base = _through_try(f, ex, e[1])
+        if base[0] == "agg" and base[1] == "tuple":
+            try:
+                return base[3][int(e[2])]
+            except (ValueError, IndexError):
+                return ("field", base, e[2])
+        if base[0] == "agg" and base[1] not in ("tuple", "array", "closure"):
+            try:
+                return base[3][f.struct_fields(base[1]).index(e[2])]
+            except Exception:
+                return ("field", base, e[2])
+        return ("field", base, e[2]) if base is not e[1] else e
+    if e[0] == "downcast" and e[2] == "Continue" and e[1][0] == "call" and e[1][1].endswith(" as std::ops::Try>::branch") and len(e[1][2]) == 1:
+        x = strip_refs(e[1][2][0])
+        cands = []
+        if x[0] == "agg":
+            cands = [x]
+        elif x[0] == "var":
+            for dloc, kind in x[2]:
+                st = ex.b.stmts(dloc[0])
+                if kind == "whole" and dloc[1] < len(st):
+                    cands.append(strip_refs(ex.rvalue(st[dloc[1]]["rv"], dloc)))
+                else:
+                    return e
+        ok = [c for c in cands if c[0] == "agg" and c[2] in ("Ok", "Some") and len(c[3]) == 1]
+        bad = [c for c in cands if not (c[0] == "agg" and c[2] in ("Ok", "Some", "Err", "None"))]
+        if len(ok) == 1 and not bad:
+            return ("agg", "tuple", None, (ok[0][3][0],))
+    return e
 
 
 def r15_3(ctx):
@@ -474,7 +536,7 @@ def r15_3(ctx):
                 truth = (vals is None and excl == [0]) or vals == [1]
                 if truth and d[0] == "bin" and d[1] == "Eq":
                     for x, k in ((strip_refs(d[2]), strip_refs(d[3])), (strip_refs(d[3]), strip_refs(d[2]))):
-                        if k[0] == "str" and len(k[1]) == 1 and any(y[0] == "call" and y[1].endswith("::index") and y[2][1] == ("const", 1) for y in subexprs(x)):
+                        if k[0] == "str" and len(k[1]) == 1 and 1 in _fen_fields(x):
                             side[k[1]] = e[2]
     ctx.ob("from_fen:side-letters", side == {"w": "White", "b": "Black"}, b.file, "FEN field 2 letter -> side to move: %s" % sorted(side.items()))
     # castling letters in the struct literal
@@ -489,7 +551,7 @@ def r15_3(ctx):
             if fld.endswith("_castle"):
                 e = agg[3][i]
                 chars = [x[2][1][1] for x in subexprs(e) if x[0] == "call" and (x[1].endswith("<impl str>::find") or x[1].endswith("<impl str>::contains")) and x[2][1][0] == "char"]
-                idx = [y[2][1][1] for y in subexprs(e) if y[0] == "call" and y[1].endswith("::index") and y[2][1][0] == "const"]
+                idx = _fen_fields(e)
                 got[fld] = (chars[0] if len(chars) == 1 else None, idx[0] if idx else None)
     want = {"white_king_side_castle": ("K", 2), "white_queen_side_castle": ("Q", 2), "black_king_side_castle": ("k", 2), "black_queen_side_castle": ("q", 2)}
     ctx.ob("from_fen:castling-letters", got == want, b.file, "right flag <- (letter searched, FEN field index): %s" % sorted(got.items()))
@@ -498,16 +560,17 @@ def r15_3(ctx):
         epi = fields.index("pawn_double_move")
         epe = agg[3][epi]
         sl = data_slice(ex, epe)
-        ok = any(x[0] == "call" and x[1].endswith("<impl str>::parse") for x in sl) and any(
-            y[0] == "call" and y[1].endswith("::index") and y[2][1] == ("const", 3) for x in sl for y in subexprs(x))
+        ok = any(x[0] == "call" and x[1].endswith("<impl str>::parse") for x in sl) and any(3 in _fen_fields(x) for x in sl)
         ctx.ob("from_fen:ep-field", ok, b.file, "pawn_double_move comes from parsing FEN field 4 as a square")
         for fld, wantv in (("last_move", "None"), ("pawn_promotion", "None")):
             e = agg[3][fields.index(fld)]
             ctx.ob("from_fen:%s-empty" % fld, e[0] == "agg" and e[2] == wantv, b.file, "a loaded position carries no move descriptor: %s = %s" % (fld, show_expr(e, b)[:30]))
     # king cache: written from (row, col) of the square just stored, exactly when kind == King, by colour
+    # (the two cache locals are the ones the struct literal's king fields are read from, whatever
+    # they are called and whether or not they travel through a helper's result struct and `?`)
     kw = {}
     for loc, st in b.iter_stmts():
-        if st["k"] == "assign" and not st["place"]["proj"] and b.lname(st["place"]["local"]).endswith("_king_location"):
+        if st["k"] == "assign" and not st["place"]["proj"] and b.local_ty(st["place"]["local"]) == "board::Point":
             e = ex.rvalue(st["rv"], loc)
             if e[0] == "agg" and e[1] == "board::Point" and e[3][0][0] == "const":
                 continue   # initial Point(0, 0)
@@ -522,12 +585,20 @@ def r15_3(ctx):
                     x = strip_refs(d0[1])
                     if x[0] == "field" and x[2] == "color":
                         conds.append(f.enum_variant_by_discr("board::PieceColor").get(vals[0]))
-            kw[b.lname(st["place"]["local"])] = (sorted(conds), e)
-    okk = set(kw) == {"white_king_location", "black_king_location"}
-    for name, (conds, e) in kw.items():
-        colour = "White" if name.startswith("white") else "Black"
-        okk = okk and conds == sorted(["King", colour]) and e[0] == "agg" and e[1] == "board::Point"
-    ctx.ob("from_fen:king-cache", okk, b.file, "king squares recorded under (kind == King, colour): %s" % {k: v[0] for k, v in kw.items()})
+            kw.setdefault(st["place"]["local"], []).append((sorted(conds), e))
+    roots = {}
+    if agg:
+        for fld in ("white_king_location", "black_king_location"):
+            e = _through_try(f, ex, agg[3][fields.index(fld)])
+            roots[fld] = e[1] if e[0] == "var" else None
+    okk = len(roots) == 2 and None not in roots.values() and len(set(roots.values())) == 2
+    shown = {}
+    for fld, l in roots.items():
+        colour = "White" if fld.startswith("white") else "Black"
+        writes = kw.get(l, [])
+        shown[fld] = [c for c, e in writes]
+        okk = okk and bool(writes) and all(conds == sorted(["King", colour]) and e[0] == "agg" and e[1] == "board::Point" for conds, e in writes)
+    ctx.ob("from_fen:king-cache", okk, b.file, "king squares recorded under (kind == King, colour) and stored in the field of that colour: %s" % shown)
 
 
 def r15_4(ctx):
